@@ -665,7 +665,8 @@ func c19Eval(cs *Case, ctx *EvalCtx) []Violation {
 		}
 		if cs.ExpectNoRun {
 			for _, e := range o.Res.Events {
-				if e.Kind == "READ" || e.Kind == "NOW" || e.Kind == "BUILTIN" || (e.Kind == "OUT" && !ax.NeedMessage) {
+				// (reading the clock is not "executing something": an implementation may note its start-up time)
+				if e.Kind == "READ" || e.Kind == "BUILTIN" || (e.Kind == "OUT" && !ax.NeedMessage) {
 					add(i, "ran-something", fmt.Sprintf("[%s] nothing may execute, but saw event %s %q", role, e.Kind, e.Data))
 					break
 				}
@@ -717,7 +718,7 @@ func c19Relaxed(cs *Case, i int, o Obs, ax C19Expect, add func(int, string, stri
 			add(i, "fault-exit-status", fmt.Sprintf("[%s] diagnostic written but status %d", role, st))
 		}
 		for _, e := range o.Res.Events {
-			if e.Seq > o.FirstErr && (e.Kind == "OUT" || e.Kind == "READ" || e.Kind == "NOW" || e.Kind == "BUILTIN") {
+			if e.Seq > o.FirstErr && (e.Kind == "OUT" || e.Kind == "READ" || e.Kind == "BUILTIN") {
 				add(i, "fault-continues-after-error", fmt.Sprintf("[%s] after the diagnostic %q came event %s %q", role, o.Stderr, e.Kind, e.Data))
 				break
 			}
